@@ -59,10 +59,10 @@ ThorC == BootS(2, 4, Types, RBys, PBys)
          \cup DualRandS(2, 2, 1, 0, 3, 1, 9, Types, {"index", "grp"}, {"cond"})
 \* NR = 4, NC = 6, trimmed draws
 ThorD == BootS(2, 3, Types, {"grp"}, {"cat", "index"})
-         \cup BootCvS(1, 2, 2, 2, 3, 1, 1, Types, {"index", "grp"}, {"index"})
+         \cup BootCvS(1, 2, 2, 2, 3, 1, 0, Types, {"index", "grp"}, {"index"})
          \cup BootCvS(2, 1, 1, 2, 3, 9, 1, {<<TRUE, TRUE>>, <<FALSE, TRUE>>}, {"index"}, {"index", "cat"})
          \cup CrossvalS("kfold", 2, 2, 3, 2, 1, {"index", "grp"}, {"index"})
          \cup CrossvalS("kfoldpat", 1, 2, 3, 9, 2, {"index"}, {"index", "cat"})
          \cup DualRandS(1, 2, 1, 3, 2, 1, 1, Types, {"index", "grp"}, {"index"})
-         \cup DualS(1, 1, 2, 2, 2, 0, 0, {"index"}, {"index"})
+         \cup DualS(1, 1, 2, 2, 2, 0, 9, {"index"}, {"index"})
 =============================================================================
